@@ -326,6 +326,12 @@ pub struct Driver {
     batch_ops: Vec<crate::batch::BatchOp>,
     batch_expect: (usize, usize),
     batch_valid: bool,
+    /// a fault armed by the last `arm_fault` op, for the next operation
+    armed: Option<(u8, u32)>,
+    /// an operation panicked in a callback of the caller *after* it had changed something: what the
+    /// cache holds is no longer determined by the history, so only the monitors that need no such
+    /// determination go on (lookups against the ground truth, panics, progress, object release at drop)
+    pub faulted: bool,
 }
 
 fn key_of(op: &Op) -> Option<u32> {
@@ -360,6 +366,8 @@ impl Driver {
             batch_ops: Vec::new(),
             batch_expect: (0, 0),
             batch_valid: false,
+            armed: None,
+            faulted: false,
         }
     }
 
@@ -409,6 +417,24 @@ impl Driver {
             "contains_key" => "lookups_contains_true",
             _ => "lookups_iter_item",
         });
+        // an insert of unknown outcome (injected fault): its value may be what is seen
+        if self.truth.key(k).map(|t| t.alt.is_some()).unwrap_or(false) {
+            let cur_matches = match vid {
+                Some(v) => self.truth.cur(k).map(|l| l.vid == v).unwrap_or(false),
+                None => matches!(self.truth.liveness(k, now), Liveness::Maybe | Liveness::Live),
+            };
+            if !cur_matches && self.truth.alt_may_be_visible(k, vid, now) {
+                if vid.is_some() {
+                    self.truth.promote_alt(k);
+                }
+                self.result.stats.inc("lookups_saw_value_of_faulted_insert");
+                return;
+            }
+            if vid.is_some() && !cur_matches && self.truth.key(k).and_then(|t| t.alt).map(|a| Some(a.vid) == vid).unwrap_or(false) {
+                // the faulted insert took effect and is seen past its own deadline
+                self.truth.promote_alt(k);
+            }
+        }
         let live = self.truth.liveness(k, now);
         match live {
             Liveness::Dead(reason) => {
@@ -564,7 +590,13 @@ impl Driver {
             self.drop_cache(true);
             return;
         }
-        if self.opts.light && idx % 8 != 7 {
+        if let Op::ArmFault { site, nth } = op {
+            self.armed = Some((site, nth));
+            self.result.stats.inc("faults_armed");
+            self.op_index += 1;
+            return;
+        }
+        if self.faulted || (self.opts.light && idx % 8 != 7) {
             self.step_light(op);
             return;
         }
@@ -603,6 +635,10 @@ impl Driver {
         let mut contained: Option<bool> = None;
         let mut iterated: Option<Vec<(u32, u64)>> = None;
         let mut iterated_split: Option<(Vec<(u32, u64)>, Vec<(u32, u64)>)> = None;
+        let armed = self.armed.take();
+        if let Some((site, nth)) = armed {
+            crate::types::arm_fault(site, nth);
+        }
         let res = {
             let cut = self.cut.as_mut().unwrap();
             catch_unwind(AssertUnwindSafe(|| match op {
@@ -616,9 +652,25 @@ impl Driver {
                 Op::InvalidateIf { p } => cut.invalidate_if(p),
                 Op::Advance { ns } => cut.advance(ns),
                 Op::Sync => cut.sync(),
+                Op::ArmFault { .. } => {}
             }))
         };
+        crate::types::disarm_fault();
         if res.is_err() {
+            if self.injected_fault(armed) {
+                // the caller's own callback panicked. If nothing at all changed, the operation did
+                // not happen and every monitor goes on; otherwise its outcome is unknown.
+                let post = self.cut.as_ref().unwrap().snapshot();
+                if post == pre && self.cut.as_ref().unwrap().sketch().table() == pre_sketch.table() {
+                    self.result.stats.inc("faults_fired_without_any_effect");
+                } else {
+                    self.result.stats.inc("faults_fired_after_partial_effect");
+                    self.fault_to_truth(&op, now);
+                    self.faulted = true;
+                }
+                self.op_index += 1;
+                return;
+            }
             self.on_panic(&op);
             return;
         }
@@ -835,10 +887,15 @@ impl Driver {
         let mut contained: Option<bool> = None;
         let mut iterated: Option<Vec<(u32, u64)>> = None;
         let density_every = self.cfg.density == Density::Every;
+        let armed = self.armed.take();
+        if let Some((site, nth)) = armed {
+            crate::types::arm_fault(site, nth);
+        }
         let res = {
             let cut = self.cut.as_mut().unwrap();
             catch_unwind(AssertUnwindSafe(|| {
                 match op {
+                    Op::ArmFault { .. } => {}
                     Op::Insert { k, vid, w } => cut.insert(k, vid, w),
                     Op::Get { k } => got = Some(cut.get(k)),
                     Op::Contains { k } => contained = Some(cut.contains(k)),
@@ -854,12 +911,22 @@ impl Driver {
                     Op::Advance { ns } => cut.advance(ns),
                     Op::Sync => cut.sync(),
                 }
+                crate::types::disarm_fault();
                 if is_sync && density_every && !matches!(op, Op::Advance { .. } | Op::Sync) {
                     cut.sync();
                 }
             }))
         };
+        crate::types::disarm_fault();
         if res.is_err() {
+            if self.injected_fault(armed) {
+                // no snapshot to compare with: the outcome of the operation is unknown
+                self.result.stats.inc("faults_fired_outcome_unknown");
+                self.fault_to_truth(&op, now);
+                self.faulted = true;
+                self.op_index += 1;
+                return;
+            }
             self.on_panic(&op);
             return;
         }
@@ -1098,6 +1165,52 @@ impl Driver {
             let _ = take_panic();
         }
         self.dead = true;
+    }
+
+    /// Was the panic that just unwound out of the operation the injected one? (Leaves any other
+    /// panic record in place for `on_panic`.)
+    fn injected_fault(&mut self, armed: Option<(u8, u32)>) -> bool {
+        let mut g = LAST_PANIC.lock().unwrap_or_else(|e| e.into_inner());
+        let ours = armed.is_some() && g.as_ref().map(|(_, m)| m == crate::types::FAULT_MSG).unwrap_or(false);
+        if ours {
+            *g = None;
+            drop(g);
+            self.result.stats.inc("faults_fired");
+            self.result.stats.inc(match armed.unwrap().0 {
+                crate::types::SITE_CLONE => "faults_fired_in_value_clone",
+                crate::types::SITE_WEIGHER => "faults_fired_in_weigher",
+                _ => "faults_fired_in_predicate",
+            });
+            self.result.stats.nontrivial.insert("C08");
+        }
+        ours
+    }
+
+    /// An operation of unknown outcome: the ground truth keeps both possibilities.
+    fn fault_to_truth(&mut self, op: &Op, now: u64) {
+        match *op {
+            Op::Insert { k, vid, w } => {
+                let ew = self.eff_weight(w);
+                self.truth.on_insert_ambiguous(k, vid, ew, now);
+                self.pending_new_weight += ew as u64;
+            }
+            Op::Get { k } => self.truth.make_uncertain(k, now, true),
+            Op::Invalidate { k } => self.truth.make_uncertain(k, now, false),
+            Op::InvalidateIf { p } => {
+                let hit: Vec<u32> = self.truth.keys.iter().filter(|(k, t)| t.cur.map(|l| p.eval(**k, l.vid, l.weight)).unwrap_or(false)).map(|(k, _)| *k).collect();
+                for k in hit {
+                    self.truth.make_uncertain(k, now, false);
+                }
+            }
+            _ => {
+                // no other operation calls back into the caller's code with state half changed;
+                // be safe: nothing is promised about any key any more
+                let all: Vec<u32> = self.truth.keys.keys().copied().collect();
+                for k in all {
+                    self.truth.make_uncertain(k, now, false);
+                }
+            }
+        }
     }
 
     fn on_panic(&mut self, op: &Op) {
